@@ -45,6 +45,13 @@ def lib_join(e, n, st, old):
 
 def lib_file_open(e, n, st, old):
     """File(path).open(mode): a stream that remembers the path it writes to"""
+    if isinstance(n.func, ast.Name):
+        # File(path): the file object
+        r = e.ctx.fresh(REF, "file")
+        p_ = e.ev(n.args[0], st, old)
+        p_ = unopt(p_) if isinstance(p_, T) and p_.sort == Opt(STR) else p_
+        st.pc.append(f"(= (|sattr_path| {r.s}) {p_.s})")
+        return r
     inner = n.func.value
     if not (isinstance(inner, ast.Call) and isinstance(inner.func, ast.Name) and inner.func.id == "File"):
         return NotImplemented
@@ -181,9 +188,82 @@ oneshot_contracts = {
 }
 ONESHOT_MODULE = Module(hooks={"subscript": oneshot_subscript}, contracts=oneshot_contracts, skip_calls=["self.log", "logger.", "log.", "warnings.warn", "print", "self.display"])
 
+# ------------------------------------------------------------------------------------------------ the oneshot command line
+CMD = "redun/executors/command.py"
+TAIL = 7
+cmd_contracts = {
+ "get_job_scratch_file": scratch_contracts["get_job_scratch_file#"], "get_array_scratch_file": scratch_contracts["get_array_scratch_file#"],
+ "get_oneshot_command": dict(where=f"{CMD}:get_oneshot_command",
+    params={"scratch_prefix": STR, "job": REF, "a_task": REF, "args": OBJ, "kwargs": OBJ, "job_options": Map(STR, OBJ), "code_file": Opt(REF), "array_uuid": Opt(STR),
+            "input_path": Opt(STR), "output_path": Opt(STR), "error_path": Opt(STR)}, returns=Seq(STR),
+    locals={"import_args": Seq(STR), "input_path": Opt(STR), "output_path": Opt(STR), "error_path": Opt(STR)},
+    lib={"CacheScope(": lambda e, n, st, old: e.ctx.app("as_CacheScope", [OBJ], OBJ, [e.to_obj(e.ev(n.args[0], st, old))]), "File(": lib_file_open,
+         "get_import_paths()": lambda e, n, st, old: e.opaque("paths"), "os.getcwd()": lambda e, n, st, old: e.opaque("cwd", STR),
+         "os.path.relpath(": lambda e, n, st, old: e.opaque("rel", STR),
+         "input_file.open(": lambda e, n, st, old: e.ev(n.func.value, st, old)},
+    loops={0: dict(inv=[], modifies=[])}, concat_facts=True,
+    lib_extra=None,
+    requires=["implies(array_uuid != None, len(val(array_uuid)) > 0)", "implies(input_path != None, len(val(input_path)) > 0)",
+              "implies(output_path != None, len(val(output_path)) > 0)", "implies(error_path != None, len(val(error_path)) > 0)"],
+    # a task that may not be served from a previous output (cache scope other than BACKEND) is run with --no-cache; BACKEND scope may reuse it
+    ensures=["(len(cache_arg) == 0) == (as_CacheScope(mapget(job_options, 'cache_scope', CacheScope.BACKEND)) == CacheScope.BACKEND)",
+             "implies(len(cache_arg) > 0, len(cache_arg) == 1 and cache_arg[0] == '--no-cache')",
+             "(len(array_arg) > 0) == (array_uuid != None)", "implies(len(array_arg) > 0, len(array_arg) == 1 and array_arg[0] == '--array-job')",
+             # input / output / error default to the array's index files resp. the job's own scratch files
+             "implies(array_uuid != None and input_path == None, final(input_path) == Some(array_scratch(scratch_prefix, val(array_uuid), SCRATCH_INPUT)))",
+             "implies(array_uuid != None and output_path == None, final(output_path) == Some(array_scratch(scratch_prefix, val(array_uuid), SCRATCH_OUTPUT)))",
+             "implies(array_uuid != None and error_path == None, final(error_path) == Some(array_scratch(scratch_prefix, val(array_uuid), SCRATCH_ERROR)))",
+             "implies(array_uuid == None and input_path == None, final(input_path) == Some(job_scratch(scratch_prefix, job, SCRATCH_INPUT)))",
+             "implies(array_uuid == None and output_path == None, final(output_path) == Some(job_scratch(scratch_prefix, job, SCRATCH_OUTPUT)))",
+             "implies(array_uuid == None and error_path == None, final(error_path) == Some(job_scratch(scratch_prefix, job, SCRATCH_ERROR)))",
+             "implies(input_path != None, final(input_path) == input_path) and implies(output_path != None, final(output_path) == output_path) and implies(error_path != None, final(error_path) == error_path)",
+             # the command ends with the cache flag (if any) and --input I --output O --error E <task>
+             f"len(result) >= {TAIL} + len(cache_arg) + len(array_arg)",
+             f"result[len(result) - 7] == '--input' and Some(result[len(result) - 6]) == final(input_path) and result[len(result) - 5] == '--output' and Some(result[len(result) - 4]) == final(output_path) "
+             f"and result[len(result) - 3] == '--error' and Some(result[len(result) - 2]) == final(error_path) and result[len(result) - 1] == a_task.fullname",
+             f"forall(i, Int, implies(0 <= i and i < len(cache_arg), result[len(result) - {TAIL} - len(cache_arg) + i] == cache_arg[i]))",
+             f"forall(i, Int, implies(0 <= i and i < len(array_arg), result[len(result) - {TAIL} - len(cache_arg) - len(array_arg) + i] == array_arg[i]))"],
+    at_call={"pickle_dump": ["array_uuid == None", "arg0[0] == args and arg0[1] == kwargs", "Some(arg1.path) == input_path"]}),
+}
+
+
+def cmd_coerce(e, t, sort):
+    if sort == STR and isinstance(t, T) and t.sort == Opt(STR):
+        return unopt(t)
+    return None
+
+
+def cmd_list(e, items):
+    """a list of strings in which some entries are Optional[str] variables that are set by then"""
+    if items and all(isinstance(i, T) and i.sort in (STR, Opt(STR)) for i in items):
+        return e.seq_of([unopt(i) if i.sort == Opt(STR) else i for i in items], STR)
+    return None
+
+
+CMD_MODULE = Module(stable={"path": STR, "fullname": STR, "load_module": STR}, declare_stable=True,
+                    ufuns={"job_scratch": ([STR, REF, STR], STR), "array_scratch": ([STR, STR, STR], STR), "as_CacheScope": ([OBJ], OBJ)},
+                    enums={"CacheScope": ["NONE", "CSE", "BACKEND"]}, consts=dict(CONSTS, REDUN_PROG=(STR, '"redun"'), REDUN_REQUIRED_VERSION=(STR, '"reqver"')),
+                    hooks={"coerce": cmd_coerce, "list_literal": cmd_list}, contracts=cmd_contracts)
+
+# ------------------------------------------------------------------------------------------------ job reuniting: what gets paired with what
+def lib_splitlines(e, n, st, old):
+    return e.opaque("eval_hashes", Seq(STR))
+
+
+gather_contracts = {
+ "get_hash_from_job_name": dict(where=f"{AB}:get_hash_from_job_name", params={"job_name": STR}, returns=Opt(STR), pure="hash_of_name"),
+ "AWSBatchExecutor.gather_inflight_jobs": dict(where=f"{AB}:AWSBatchExecutor.gather_inflight_jobs", params={"self": REF},
+    # a single job is paired under the hash in its own name; an array child under line <its own array index> of the array's eval-hash file
+    at_store={"preexisting_batch_jobs#0": ["Some(skey) == hash_of_name(name)", "sval == job['jobId']"],
+              "preexisting_batch_jobs#1": ["skey == eval_hashes[job_index]", "sval == job_id"]},
+    lib={"get_array_scratch_file(": lambda e, n, st, old: e.opaque("path", STR), "File(": lambda e, n, st, old: e.opaque("file"),
+         "is_array_job_name(": lambda e, n, st, old: e.opaque("is_array", BOOL)}),
+}
+GATHER_MODULE = Module(fields={"preexisting_batch_jobs": Map(STR, OBJ)}, ufuns={"hash_of_name": ([STR], Opt(STR))}, contracts=gather_contracts, classes={"self": "AWSBatchExecutor"})
+
 MODULES = [(IDX_MODULE, ["get_job_array_index"]), (SCRATCH_MODULE, ["get_job_scratch_file", "get_array_scratch_file"]), (SCRATCH_MODULE_W, ["write_array_job_scratch_files"]),
            (AWS_NAMES, ["get_batch_job_name", "get_hash_from_job_name", "lemma.name_roundtrip"]), (K8S_NAMES, ["get_k8s_job_name", "get_hash_from_job_name", "lemma.name_roundtrip"]),
-           (ONESHOT_MODULE, ["RedunClient.oneshot_command"])]
+           (ONESHOT_MODULE, ["RedunClient.oneshot_command"]), (CMD_MODULE, ["get_oneshot_command"]), (GATHER_MODULE, ["AWSBatchExecutor.gather_inflight_jobs"])]
 
 
 def bounded_protocol(tier, seed):
